@@ -5,7 +5,8 @@ from vlib import judge
 
 TOKENS = ["-b", "--b", "-b=true", "-b=false", "-b=", "-b=x", "-s", "-s=v", "--s=v", "-s=", "-s=a=b", "--s", "-i=7", "-i=x", "-i",
           "-i=-5", "-u", "-u=1", "--", "-", "---s", "-=", "-=v", "--=v", "v", "true", "-5", "=", "", "-help", "--help=false",
-          "-config=", "x=y", "s", "-s=-b", "--i=", "-b=1", "-config=cfg.json"]
+          "-config=", "x=y", "s", "-s=-b", "--i=", "-b=1", "-config=cfg.json",
+          "-i=010", "-i=0x1f", "-i=08", "-i=1_0", "-i=0b11", "-i=+4", "-i=0_7", "-i=_1"]
 
 
 def s(a):
@@ -45,4 +46,4 @@ def run(ctx):
     for c in rows[5000:5003] + rows[-2:]:
         ctx.sample({"argv": [s(t) for t in c["v"]], "err": c["err"], "b": c["b"], "s": s(c["s"]), "i": c["i"],
                     "rest": [s(t) for t in c["rest"]]})
-    ctx.assumptions += ["error text is not compared, only error-ness", "integer/bool text parsing beyond plain decimals is strconv's (model: unknown)"]
+    ctx.assumptions += ["error text is not compared, only error-ness", "integer texts longer than 7 bytes that are not plain decimals are strconv's (model: unknown); shorter ones are read by the Go integer literal grammar (GoLit.tla)"]
